@@ -409,7 +409,13 @@ def related_patterns(rng, cat):
         a + "?*",
         a + "*",
         svc + ":" + name[:j + 1] + "?*",
+        # ... and with the question mark AFTER the star (a run of wildcards is not one wildcard): `a*?` does not match `a`
+        a + "*?",
+        svc + ":" + name[:j + 1] + "*?" + name[j + 1:],
+        svc + ":" + name[:i] + "**?" + name[i + 1:],
     ]
+    if rng.random() < 0.2:
+        return [rng.choice([a + "*?", a + "*?*", a + "**?", svc + ":" + name[:j + 1] + "*?" + name[j + 1:]])]
     if rng.random() < 0.3:
         ps = [a + "?*", a + "*"] if rng.random() < 0.7 else [svc + ":" + name[:j + 1] + "?*", svc + ":" + name[:j + 1] + "*"]
         if rng.random() < 0.3:
@@ -489,6 +495,15 @@ def cases(rng, tier, shard, nshards):
                 yield ALLOWED, {"statements": [dict(st)], "single": rng.random() < 0.5}
         elif r == 6:
             yield ALLOWED, {"statements": gen_statements(rng, cat), "single": rng.random() < 0.3}
+            if k % 20 == 6:
+                # the same patterns allowed positively by one statement and negatively by the next (the "power user" shape): the
+                # document allows the union of both (seeded change C09-r5m1 skipped a statement whose flattened action list it had seen)
+                ps = gen_patterns(rng, cat) or [gen_pattern(rng, cat)]
+                two = [{"effect": "Allow", "action": ps, "notaction": None}, {"effect": "Allow", "action": None, "notaction": ps}]
+                if rng.random() < 0.5:
+                    two.reverse()
+                yield ALLOWED, {"statements": two, "single": False}
+                yield IAM, {"statements": two, "single": False}
         elif r == 7:
             yield IAM, {"statements": gen_statements(rng, cat) + ([{"effect": rng.choice(EFFECTS), "action": rng.choice(["iam:*", "iam:Pass*", "IAM:get*", "iam:CreateUser", ["iam:List*", "s3:*"]]), "notaction": None}] if rng.random() < 0.6 else []), "single": False}
         elif r == 8:
